@@ -4,6 +4,8 @@ package c08
 import (
 	"fmt"
 	"sort"
+	"strings"
+	"time"
 
 	"go.nanomsg.org/mangos/v3"
 	"go.nanomsg.org/mangos/v3/protocol/bus"
@@ -74,6 +76,8 @@ func init() {
 		}
 		out = append(out, &vexplore.Scenario{Name: "payload-sequences", Mode: "enum", Reset: kit.ResetGlobals, Body: payloads, NeedCounters: []string{"empty-payload-delivered", "header-like-payload-delivered"}})
 		out = append(out, &vexplore.Scenario{Name: "star-chains-within-hop-limit", Mode: "enum", Reset: kit.ResetGlobals, Body: starChain, NeedCounters: []string{"far-end-reached-at-exact-limit"}})
+		out = append(out, &vexplore.Scenario{Name: "star-hub-with-a-stalled-member", Mode: "enum", Reset: kit.ResetGlobals, Body: starStalled, NeedCounters: []string{"healthy-member-got-everything"}})
+		out = append(out, &vexplore.Scenario{Name: "once-after-reconnect", Mode: "enum", Reset: kit.ResetGlobals, Body: onceAfterReconnect, NeedCounters: []string{"reconnected-once"}})
 		out = append(out, &vexplore.Scenario{Name: "xbus-forward-after-peer-change", Mode: "enum", Reset: kit.ResetGlobals, Body: xbusPeerChange, NeedCounters: []string{"forwarded-to-newcomer"}})
 		out = append(out, &vexplore.Scenario{Name: "xstar-raw-forward", Mode: "sched", Bound: b, Reset: kit.ResetGlobals, Body: xstarRaw})
 		return out
@@ -369,6 +373,121 @@ func starChain() {
 			_ = s.Close()
 		}
 	})
+}
+
+// starStalled: a STAR hub with three members; one of them never receives, so the hub's queue towards
+// it fills up and what the hub would forward to it is dropped.  That is that member's loss only:
+// the other healthy member receives every message the sender sent, once, unchanged.
+func starStalled() {
+	stalled := 1 + kit.ChooseFree(2) // which of the two non-sending members stalls
+	hub, err := star.NewSocket()
+	must(err, "NewSocket")
+	must(hub.SetOption(mangos.OptionWriteQLen, 1), "WriteQLen")
+	must(hub.Listen("inproc://c08-stall"), "Listen")
+	var ms []mangos.Socket
+	for i := 0; i < 3; i++ {
+		m, err := star.NewSocket()
+		must(err, "NewSocket")
+		must(m.SetOption(mangos.OptionReadQLen, 1), "ReadQLen")
+		must(m.Dial("inproc://c08-stall"), "Dial")
+		kit.Quiesce()
+		ms = append(ms, m)
+	}
+	healthy := 3 - stalled
+	for i := 0; i < 8; i++ {
+		body := fmt.Sprintf("msg-%d-%s", i, strings.Repeat("x", i))
+		cl := kit.Start("Send", func() (interface{}, error) { return nil, kit.SendBytes(ms[0], []byte(body)) })
+		kit.Quiesce()
+		if !cl.Done() || cl.Err != nil {
+			kit.Failf("send-stuck", "Send %d done=%v %s", i, cl.Done(), kit.ErrName(cl.Err))
+		}
+		rc := kit.Start("Recv:healthy", func() (interface{}, error) { b, err := kit.Recv(ms[healthy]); return string(b), err })
+		kit.Quiesce()
+		if !rc.Done() || rc.Err != nil || rc.Val.(string) != body {
+			kit.Failf("healthy-member-starved", "STAR hub with a stalled member: message %d (%q) sent by member 0: the healthy member %d: Recv done=%v %s %q (it takes every message at once; only the stalled member's queue is full)", i, body, healthy, rc.Done(), kit.ErrName(rc.Err), rc.Val)
+		}
+		hc := kit.Start("Recv:hub", func() (interface{}, error) { b, err := kit.Recv(hub); return string(b), err })
+		kit.Quiesce()
+		if !hc.Done() || hc.Err != nil || hc.Val.(string) != body {
+			kit.Failf("hub-application-starved", "message %d: the hub's own application: Recv done=%v %s %q", i, hc.Done(), kit.ErrName(hc.Err), hc.Val)
+		}
+	}
+	kit.Count("healthy-member-got-everything")
+	kit.Observe("%d", stalled)
+	kit.Must("Close", func() {
+		_ = hub.Close()
+		for _, m := range ms {
+			_ = m.Close()
+		}
+	})
+}
+
+// onceAfterReconnect: Y listens, X and Z dial it (BUS mesh through Y, or STAR with Y as the hub).
+// Y closes its end of the connection to X; X's dialer connects again.  After that every message
+// still arrives exactly once: a reconnect makes one new connection, not several.
+func onceAfterReconnect() {
+	c := []ctor{bus.NewSocket, star.NewSocket}[kit.ChooseFree(2)]
+	y, err := c()
+	must(err, "NewSocket")
+	var yp []mangos.Pipe
+	y.SetPipeEventHook(func(ev mangos.PipeEvent, p mangos.Pipe) {
+		if ev == mangos.PipeEventAttached {
+			yp = append(yp, p)
+		}
+	})
+	must(y.Listen("inproc://c08-rec"), "Listen")
+	x, err := c()
+	must(err, "NewSocket")
+	xAttached := 0
+	x.SetPipeEventHook(func(ev mangos.PipeEvent, p mangos.Pipe) {
+		if ev == mangos.PipeEventAttached {
+			xAttached++
+		}
+	})
+	must(x.SetOption(mangos.OptionReconnectTime, 100*time.Millisecond), "ReconnectTime")
+	must(x.SetOption(mangos.OptionMaxReconnectTime, 100*time.Millisecond), "MaxReconnectTime")
+	must(x.Dial("inproc://c08-rec"), "Dial")
+	kit.Quiesce()
+	round := func(tag string) {
+		body := "from-y-" + tag
+		cl := kit.Start("Send", func() (interface{}, error) { return nil, kit.SendBytes(y, []byte(body)) })
+		kit.Quiesce()
+		if !cl.Done() || cl.Err != nil {
+			kit.Failf("send-stuck", "Send done=%v %s", cl.Done(), kit.ErrName(cl.Err))
+		}
+		rc := kit.Start("Recv", func() (interface{}, error) { b, err := kit.Recv(x); return string(b), err })
+		kit.Quiesce()
+		if !rc.Done() || rc.Err != nil || rc.Val.(string) != body {
+			kit.Failf("missing", "%s: X did not receive Y's message: done=%v %s %q", tag, rc.Done(), kit.ErrName(rc.Err), rc.Val)
+		}
+		r2 := kit.Start("Recv2", func() (interface{}, error) { b, err := kit.Recv(x); return string(b), err })
+		kit.Quiesce()
+		if r2.Done() {
+			kit.Failf("duplicate", "%s: X received Y's message a second time (%q / %s); X has attached %d connection(s) so far", tag, r2.Val, kit.ErrName(r2.Err), xAttached)
+		}
+		// leave no Recv pending
+		cl2 := kit.Start("Send-flush", func() (interface{}, error) { return nil, kit.SendBytes(y, []byte("flush-"+tag)) })
+		kit.Quiesce()
+		_ = cl2
+		if !r2.Done() {
+			kit.Failf("missing", "%s: flush message not received", tag)
+		}
+	}
+	round("before")
+	if len(yp) != 1 {
+		kit.Failf("setup", "Y has %d pipes", len(yp))
+	}
+	kit.Must("Pipe.Close", func() { _ = yp[0].Close() })
+	kit.Quiesce()
+	kit.Sleep(time.Second)
+	kit.Quiesce()
+	if xAttached != 2 {
+		kit.Failf("reconnect-count", "Y closed its end of the one connection once; X's dialer has attached %d connection(s) in all, want 2 (the original and one reconnect)", xAttached)
+	}
+	kit.Count("reconnected-once")
+	round("after")
+	kit.Observe("ok")
+	kit.Must("Close", func() { _ = x.Close(); _ = y.Close() })
 }
 
 // xbusPeerChange: a raw BUS socket (a forwarder) has received a message from peer A and still
